@@ -30,6 +30,11 @@ class Objs:
                 a = gen.build_arr(st["rec"])
                 o = emdfile.Array(data=a, name=st["name"])
                 self.w.reg(o)
+            elif do == "pointlist":
+                # lengths 0, 1, n — and a single record held as a 0-dimensional structured array
+                dt = np.dtype([("x", float), ("y", int)])
+                a = np.zeros((), dtype=dt) if st["len"] == "scalar" else np.zeros(st["len"], dtype=dt)
+                self.w.reg(emdfile.PointList(data=a, name=st["name"]))
             elif do == "md":
                 val = {"c": st["content"]}
                 if st.get("bad"):
@@ -49,9 +54,12 @@ class Objs:
     def snapshot(self):
         s = forest.canon_heap(self.w.snapshot())
         extra = {}
+        self.data_ids = getattr(self, "data_ids", {})
         for i, o in enumerate(self.w.nodes):
-            if isinstance(o, emdfile.Array):
-                extra[str(i)] = alpha.array_token(o.data)
+            if isinstance(o, (emdfile.Array, emdfile.PointList)):
+                # value, shape, and IDENTITY of the array object the caller handed in (first seen = reference)
+                ref = self.data_ids.setdefault(i, id(o.data))
+                extra[str(i)] = [alpha.array_token(o.data), [int(x) for x in np.shape(o.data)], ref == id(o.data)]
         loose = []
         for x in self.loose:
             if isinstance(x, np.ndarray):
@@ -88,16 +96,24 @@ def gen_case(r):
         steps.append({"do": "root", "name": f"R{nid}"}); roots.append(nid); rooted.append(nid); nid += 1
     parent_of = {}
     for _ in range(r.choice([2, 4, 7])):
-        kind = r.choice(["node", "node", "array"])
+        kind = r.choice(["node", "node", "array", "pointlist"])
         nm = f"n{nid}"
         st = {"do": kind, "name": nm}
         if kind == "array":
             st["rec"] = gen.gen_arr(r, maxrank=2) | {"shape": [r.randrange(1, 4)]}
+        elif kind == "pointlist":
+            st["len"] = r.choice([0, 1, 3, "scalar", "scalar"])
         steps.append(st)
         me = nid; nid += 1
         if r.random() < 0.7:
             p = r.choice(rooted)
             steps.append({"do": "add", "parent": p, "child": me}); rooted.append(me); parent_of[me] = p
+            if p in roots and r.random() < 0.15:
+                # a Root that happens to be called like the temporary root the writer would make for this child
+                # (`<name>_root`): e.g. the tree read back from a file that an unrooted node was saved into
+                for s0 in steps:
+                    if s0["do"] == "root" and s0["name"] == f"R{p}":
+                        s0["name"] = nm + "_root"
         else:
             unrooted.append(me)
     bad = r.random() < 0.2
